@@ -46,3 +46,137 @@ def shrink(case, same, budget_s):
     c = dict(case)
     c["steps"] = core.ddmin_list(case["steps"], test, budget_s=budget_s, min_len=1)
     return c
+
+
+# ----------------------------------------------------------------------------- exhaustive part: all reference graphs over 3 nodes
+
+def _graph_src(kinds, edges, names):
+    out = ["import twosigma.memento as m", ""]
+    n = len(kinds)
+    for i in range(n):
+        if kinds[i]:
+            out.append("@m.memento_function")
+        out.append("def %s(x):" % names[i])
+        out.append("    if x <= 0:")
+        out.append("        return 0")
+        calls = " + ".join("%s(x - 1)" % names[j] for j in range(n) if edges[i][j]) or "0"
+        out.append("    return 1 + %s" % calls)
+        out.append("")
+    return "\n".join(out)
+
+
+def _graph_expected(kinds, edges, modname, names):
+    n = len(kinds)
+
+    def reach_through_all(i):
+        seen, st = set(), [j for j in range(n) if edges[i][j]]
+        while st:
+            j = st.pop()
+            if j in seen:
+                continue
+            seen.add(j)
+            st.extend(k for k in range(n) if edges[j][k])
+        return seen
+
+    def first_memento(i):
+        seen, st, out = set(), [j for j in range(n) if edges[i][j]], set()
+        while st:
+            j = st.pop()
+            if j in seen:
+                continue
+            seen.add(j)
+            if kinds[j]:
+                if j != i:
+                    out.add(j)
+            else:
+                st.extend(k for k in range(n) if edges[j][k])
+        return out
+    q = lambda j: "%s:%s" % (modname, names[j])
+    exp = {}
+    for i in range(n):
+        if not kinds[i]:
+            continue
+        trans = sorted(q(j) for j in reach_through_all(i) if kinds[j] and j != i)
+        direct = sorted(q(j) for j in range(n) if edges[i][j] and kinds[j] and j != i)
+        nodes = set([i]) | set(j for j in reach_through_all(i) if kinds[j])
+        ed = sorted([q(a), q(b)] for a in nodes for b in first_memento(a))
+        exp[names[i]] = {"trans": trans, "direct": direct, "edges": ed}
+    return exp
+
+
+def _exec_graphs(case):
+    import shutil
+    import sys
+    from sim import world
+    root = core.new_scratch("c14g")
+    names = ["ga", "gb", "gc"]
+
+    def body(emit):
+        world.install_seams(1)
+        world.SideChannel()
+        world.make_env(root, world.make_storage("memory", root))
+        bad = None
+        count = 0
+        for code in range(case["lo"], case["hi"]):
+            kinds = [(code >> b) & 1 for b in range(3)]
+            ebits = code >> 3
+            edges = [[(ebits >> (i * 3 + j)) & 1 for j in range(3)] for i in range(3)]
+            if not any(kinds):
+                continue
+            modname = "vgraph.g%d" % code
+            mod = world.load_module(modname, _graph_src(kinds, edges, names))
+            exp = _graph_expected(kinds, edges, modname, names)
+            count += 1
+            for nm in sorted(exp):
+                fn = getattr(mod, nm)
+                g = fn.dependencies()
+                got = {"trans": sorted(f.qualified_name_without_version for f in g.transitive_memento_fn_dependencies()),
+                       "direct": sorted(f.qualified_name_without_version for f in g.direct_memento_fn_dependencies())}
+                df = g.df()
+                got["edges"] = sorted([r["src"], r["target"]] for _, r in df.iterrows())
+                for what in ("trans", "direct", "edges"):
+                    if got[what] != exp[nm][what]:
+                        bad = {"code": code, "kinds": kinds, "edges": edges, "fn": nm, "what": what, "got": got[what], "expected": exp[nm][what]}
+                        break
+                if bad:
+                    break
+            if bad:
+                break
+        emit({"bad": bad, "count": count})
+    try:
+        ev, _ = core.lifetime(body, timeout=600)
+    finally:
+        shutil.rmtree(root, ignore_errors=True)
+    r = ev[-1]
+    viol = []
+    if r["bad"]:
+        b = r["bad"]
+        viol.append(core.violation("dependency-%s-inexact" % b["what"], {"mode": "exhaustive-3-node-graphs",
+                                   "diff": "missing" if len(b["got"]) < len(b["expected"]) else "extra"}, b))
+    dg = core.digest_of([case["lo"], case["hi"], r["bad"]])
+    return {"violations": viol, "digest": dg, "nontrivial": True, "stats": {"exhaustive_graphs": r["count"]}, "steps": r["count"],
+            "keys": [dg], "evaluations": r["count"],
+            "sample": {"mode": "exhaustive-3-node-graphs", "codes": [case["lo"], case["hi"]],
+                       "example_source": _graph_src([1, 0, 1], [[0, 1, 0], [0, 0, 1], [1, 0, 0]], names)}}
+
+
+_orig_cases14 = cases
+_orig_execute14 = execute
+
+
+def cases(tier, seed):
+    out = _orig_cases14(tier, seed)
+    step = 128
+    for lo in range(0, 4096, step):
+        out.append({"seed": 1, "mode": "graphs", "lo": lo, "hi": lo + step})
+    return out
+
+
+def execute(case):
+    if case.get("mode") == "graphs":
+        return _exec_graphs(case)
+    return _orig_execute14(case)
+
+
+RULE = RULE + ("; plus ALL 3 584 reference graphs over 3 nodes of kinds {memento, plain} with arbitrary bare-name edges incl. self loops "
+               "and cycles (exhaustive): transitive / direct dependencies and df() edges of every memento node vs. reachability")
